@@ -2127,11 +2127,9 @@ func (db *DB) CommitJournal(ctx context.Context, mode JournalMode) (err error) {
 	// is skipped and the file system fills the gap with zeros. Such a page is
 	// part of the database from this transaction on, so it is part of the
 	// transaction file and of the checksum as well.
-	unwritten := make(map[uint32]struct{})
 	for pgno := prevPageN + 1; pgno <= commit && pgno != 0; pgno++ {
 		if _, ok := db.dirtyPageSet[pgno]; !ok {
 			pgnos = append(pgnos, pgno)
-			unwritten[pgno] = struct{}{}
 		}
 	}
 	sort.Slice(pgnos, func(i, j int) bool { return pgnos[i] < pgnos[j] })
@@ -2194,7 +2192,9 @@ func (db *DB) CommitJournal(ctx context.Context, mode JournalMode) (err error) {
 		// Verify updated page matches in-memory checksum.
 		bufChksum := ltx.ChecksumPage(pgno, buf)
 		db.chksums.mu.Lock()
-		if _, ok := unwritten[pgno]; ok {
+		if pgno > prevPageN && db.databasePageChecksum(pgno) == 0 {
+			// Not written in this transaction (see above), whatever an earlier,
+			// rolled-back transaction may have left in the dirty page set.
 			db.setDatabasePageChecksum(pgno, bufChksum)
 		}
 		pageChksum, ok := db.pageChecksum(pgno, commit, nil)
